@@ -767,6 +767,15 @@ func (m *Machine) indexVal(fr *frame, x Value, idx *Term, idxT types.Type) Value
 	case *ByteObj:
 		m.boundsCheck(fr, i, x.size, "array")
 		return x.get(m, i)
+	case string:
+		m.boundsCheck(fr, i, Const(64, uint64(len(x))), "string")
+		if i.IsConst() {
+			return Const(8, uint64(x[i.val]))
+		}
+		return m.strBytes(x).obj.get(m, i)
+	case *SymStr:
+		m.boundsCheck(fr, i, x.len, "string")
+		return x.obj.get(m, m.tc.Bin(OpAdd, x.off, i))
 	}
 	panic(engineErr{fmt.Sprintf("Index on %T", x)})
 }
